@@ -5,16 +5,20 @@
   `output/html5elements.rs`, `output/html5_serializer.rs` and `serialize.rs`.
   Part 2: for every tree, start node, environment and parameter set — never a panic, the doctype,
   tags (`>` only, end tag ⇔ not void), unprefixed HTML / MathML / SVG names, text and attribute
-  escaping, refusal of processing instructions containing `>`.
-  Defects kept visible: `C19_xhtml_const_defect` (so "XHTML_NS" below is the namespace the crate's
-  constant names, the `https` spelling: the partial form of the property), `C19_embedded_defect`.
+  escaping, refusal of processing instructions containing `>`, and (full strength since /repo
+  f19bbd2) MathML / SVG / XHTML elements under a default-namespace declaration (`C19_embedded`).
+  Defect kept visible: `C19_xhtml_const_defect` (so "XHTML_NS" below is the namespace the crate's
+  constant names, the `https` spelling: the partial form of the property).
 -/
 import XotModel.Lemmas.Html5Esc
 import XotModel.Lemmas.Html5Names
 import XotModel.Lemmas.Html5Stream
 import XotModel.Lemmas.Html5Ctx
+import XotModel.Lemmas.Html5Token
 import XotModel.Lemmas.Html5Embedded
-import XotModel.Lemmas.Html5Stack2
+import XotModel.Lemmas.Html5Top
+import XotModel.Lemmas.Html5Decode
+import XotModel.Lemmas.Html5Pretty
 
 namespace XotModel.Props
 open XotModel XotModel.Gen
@@ -147,7 +151,7 @@ theorem C19_doctype (env : Env) (p : HtmlParams) (t : Tree) (start : Path) (out 
 /-! ### Tags -/
 
 /-- A start tag is always closed by `>`: there is no self-closing form. -/
-theorem C19_tags_close (c : HtmlCtx) (s : FStack) (node : Tree) (parent : Option Tree) :
+theorem C19_tags_close (c : HtmlCtx) (s : HState) (node : Tree) (parent : Option Tree) :
     renderHtml c s node parent .startTagClose = .ok (s, ⟨false, ['>']⟩) := rfl
 
 /-- Which elements are void: HTML namespace (none or `XHTML_NS`) and the lower-cased local name in
@@ -158,25 +162,12 @@ theorem C19_tags_void_iff (c : HtmlCtx) (name : Nat) :
   void_matches_eq c.h c.env name
 
 /-- The end-tag token is empty exactly for void elements; otherwise it is `</name>`. -/
-theorem C19_tags_end (c : HtmlCtx) (s s' : FStack) (node : Tree) (parent : Option Tree) (name : Nat)
+theorem C19_tags_end (c : HtmlCtx) (s s' : HState) (node : Tree) (parent : Option Tree) (name : Nat)
     (tok : OutputToken) (h : renderHtml c s node parent (.endTag name) = .ok (s', tok)) :
     (tok.text = [] ↔ c.h.void.matches c.env name = true) ∧
     (c.h.void.matches c.env name = false →
-      ∃ full, s.elementFullname c.env name = .ok full ∧ tok.text = ['<','/'] ++ full ++ ['>']) := by
-  simp only [renderHtml] at h
-  by_cases hv : c.h.void.matches c.env name = true
-  · simp only [hv, if_true, Outcome.ok.injEq, Prod.mk.injEq] at h
-    obtain ⟨_, rfl⟩ := h
-    simp [hv, litHtmlVoidEndTag]
-  · have hv' : c.h.void.matches c.env name = false := by simpa using hv
-    simp only [hv', Bool.false_eq_true, if_false] at h
-    cases hf : s.elementFullname c.env name with
-    | error e => rw [hf] at h; cases h
-    | ok full =>
-      rw [hf] at h
-      simp only [Outcome.ok.injEq, Prod.mk.injEq] at h
-      obtain ⟨_, rfl⟩ := h
-      simp [hv', fmt, fmtHtmlEndTag]
+      ∃ full, s.stack.elementFullname c.env name = .ok full ∧ tok.text = ['<','/'] ++ full ++ ['>']) :=
+  c19_tags_end c s s' node parent name tok h
 
 /-! ### Unprefixed names -/
 
@@ -184,42 +175,15 @@ theorem C19_tags_end (c : HtmlCtx) (s s' : FStack) (node : Tree) (parent : Optio
     with its bare local name: `<name`, or `<name xmlns="…"` when the serialiser injects the default
     declaration.  (`hxml`: the namespace is not the XML namespace — true of every `Xot`, see
     `C19_ids_ne_xml`.) -/
-theorem C19_unprefixed (c : HtmlCtx) (s s' : FStack) (node : Tree) (parent : Option Tree) (name : Nat)
+theorem C19_unprefixed (c : HtmlCtx) (s s' : HState) (node : Tree) (parent : Option Tree) (name : Nat)
     (tok : OutputToken)
     (hns : c.h.isHtmlNamespace (c.env.nsOfName name) = true ∨ c.h.mustBeUnprefixed (c.env.nsOfName name) = true)
     (hxml : c.env.nsOfName name ≠ Env.xmlNamespace)
     (h : renderHtml c s node parent (.startTagOpen name) = .ok (s', tok)) :
     tok.text = ['<'] ++ c.env.localName name ∨
     tok.text = ['<'] ++ c.env.localName name ++ [' ','x','m','l','n','s','=','"']
-      ++ serializeAttributeHtml (c.env.namespaceStr (c.env.nsOfName name)) ++ ['"'] := by
-  simp only [renderHtml] at h
-  split at h
-  · simp only [Outcome.ok.injEq, Prod.mk.injEq] at h
-    obtain ⟨_, rfl⟩ := h
-    right
-    simp [fmt, fmtHtmlStartTagOpenNs]
-  · rename_i hcond
-    left
-    have hfull : (s.push node.nsDecls).elementFullname c.env name = .ok (c.env.localName name) := by
-      unfold FStack.elementFullname FStack.elementPrefix
-      by_cases h0 : (c.env.nsOfName name == Env.noNamespace) = true
-      · simp [h0, qname]
-      · have h1 : (c.env.nsOfName name == Env.xmlNamespace) = false := by simpa using hxml
-        have hmust : c.h.mustBeUnprefixed (c.env.nsOfName name) = true := by
-          rcases hns with hh | hm
-          · simp only [Html5Elements.isHtmlNamespace, Bool.or_eq_true] at hh
-            rcases hh with hh | hh
-            · simp [Html5Elements.mustBeUnprefixed, hh]
-            · exact absurd hh h0
-          · exact hm
-        have hhas : (s.push node.nsDecls).hasEmptyPrefix (c.env.nsOfName name) = true := by
-          simpa [hmust] using hcond
-        simp only [FStack.hasEmptyPrefix, beq_iff_eq] at hhas
-        simp [h0, h1, hhas, qname]
-    rw [hfull] at h
-    simp only [Outcome.ok.injEq, Prod.mk.injEq] at h
-    obtain ⟨_, rfl⟩ := h
-    simp [fmt, fmtHtmlStartTagOpen]
+      ++ serializeAttributeHtml (c.env.namespaceStr (c.env.nsOfName name)) ++ ['"'] :=
+  c19_unprefixed c s s' node parent name tok hns hxml h
 
 /-- The ids `xot.html5()` uses for the three namespaces are not the XML namespace's, in every
     environment that has the built-in registrations of `Xot::new`. -/
@@ -227,25 +191,24 @@ theorem C19_ids_ne_xml (env : Env) (p : HtmlParams) (hxml : env.namespaces[Env.x
     (htmlCtx env p).h.xhtml ≠ Env.xmlNamespace ∧ (htmlCtx env p).h.mathml ≠ Env.xmlNamespace ∧
     (htmlCtx env p).h.svg ≠ Env.xmlNamespace := html5_new_ne_xml env hxml
 
-/-- MathML / SVG (and `XHTML_NS`) elements: the default declaration of the element's own namespace
-    is written into the start tag whenever the name stack holds no default binding for that
-    namespace.  `hno` is the boundary of the defect `C19_embedded_defect`: the stack may hold a
-    stale binding (injected for an earlier element that had no frame of its own, or overridden by
-    a nearer injected one), and then nothing is written. -/
-theorem C19_embedded_partial (c : HtmlCtx) (s : FStack) (node : Tree) (parent : Option Tree) (name : Nat)
+/-- Token level: the default declaration of the element's own namespace is written into the start
+    tag whenever the name stack (after the element's own written declarations) holds no default
+    binding for that namespace; the binding gets a frame of its own. -/
+theorem C19_embedded_inject (c : HtmlCtx) (s : HState) (node : Tree) (parent : Option Tree) (name : Nat)
     (hm : c.h.mustBeUnprefixed (c.env.nsOfName name) = true)
-    (hno : (s.push node.nsDecls).hasEmptyPrefix (c.env.nsOfName name) = false) :
+    (hno : (s.stack.push (htmlDeclarations node (c.env.nsOfName name))).hasEmptyPrefix (c.env.nsOfName name) = false) :
     ∃ s', renderHtml c s node parent (.startTagOpen name) = .ok (s',
       ⟨false, ['<'] ++ c.env.localName name ++ [' ','x','m','l','n','s','=','"']
         ++ serializeAttributeHtml (c.env.namespaceStr (c.env.nsOfName name)) ++ ['"']⟩) := by
-  refine ⟨(s.push node.nsDecls).addEmptyPrefix (c.env.nsOfName name), ?_⟩
+  refine ⟨⟨(s.stack.push (htmlDeclarations node (c.env.nsOfName name))).push [(Env.emptyPrefix, c.env.nsOfName name)],
+    ((if (htmlDeclarations node (c.env.nsOfName name)).isEmpty then 0 else 1) + 1) :: s.frames⟩, ?_⟩
   simp only [renderHtml, hm, hno]
   simp [fmt, fmtHtmlStartTagOpenNs]
 
 /-! ### Text -/
 
 /-- The text token is the text run through the function its parent selects. -/
-theorem C19_text (c : HtmlCtx) (s s' : FStack) (node : Tree) (parent : Option Tree) (text : Str)
+theorem C19_text (c : HtmlCtx) (s s' : HState) (node : Tree) (parent : Option Tree) (text : Str)
     (tok : OutputToken) (h : renderHtml c s node parent (.text text) = .ok (s', tok)) :
     tok.space = false ∧ tok.text = htmlTextValue c parent text := by
   simp only [renderHtml, Outcome.ok.injEq, Prod.mk.injEq] at h
@@ -287,93 +250,35 @@ theorem C19_text_cdata (c : HtmlCtx) (parent : Option Tree) (text : Str) (pn : N
     (hpn : parentElementName parent = some pn) (hraw : c.h.noEscape.matches c.env pn = false)
     (hcd : c.cdata.contains pn = true) :
     htmlTextValue c parent text = serializeCdata text ∧
-    cdataSectionsContent (htmlTextValue c parent text) = some text := by
-  have hv : htmlTextValue c parent text = serializeCdata text := by
-    simp only [htmlTextValue, hpn, hraw, hcd, Bool.false_eq_true, if_false, if_true]
-  refine ⟨hv, ?_⟩
-  rw [hv]
-  have hO : cdataOpen = ['<','!','[','C','D','A','T','A','['] := by decide
-  have hS : cdataSplit = [']',']',']',']','>'] ++ cdataOpen ++ ['>'] := by decide
-  have hR : cdataCr = [']',']','>'] ++ ['&','#','x','D',';'] ++ cdataOpen := by decide
-  have hC : cdataClose = [']',']','>'] := by decide
-  have h := cdataGo_sections hO hS hR hC text 0 0 (by omega) (by intro; rfl)
-  simp only [List.replicate_zero, List.nil_append, Nat.zero_add] at h
-  unfold cdataSectionsContent serializeCdata
-  rw [hO]
-  simp only [List.cons_append, List.nil_append]
-  rw [afterSection_open, h]
+    cdataSectionsContent (htmlTextValue c parent text) = some text :=
+  c19_text_cdata c parent text pn hpn hraw hcd
 
 /-! ### Attribute values -/
 
 /-- An attribute token is the bare name (boolean attribute) or `name="value"` where the value
     holds no `"` and every `&` in it starts a character reference. -/
-theorem C19_attr (c : HtmlCtx) (s s' : FStack) (node : Tree) (parent : Option Tree) (name : Nat)
+theorem C19_attr (c : HtmlCtx) (s s' : HState) (node : Tree) (parent : Option Tree) (name : Nat)
     (value : Str) (tok : OutputToken)
     (h : renderHtml c s node parent (.attribute name value) = .ok (s', tok)) :
-    ∃ full, s.attributeFullname c.env name = .ok full ∧ tok.space = true ∧
+    ∃ full, s.stack.attributeFullname c.env name = .ok full ∧ tok.space = true ∧
       ((tok.text = full ∧ asciiLower (c.env.localName name) = asciiLower value) ∨
-       (∃ v, tok.text = full ++ ['=','"'] ++ v ++ ['"'] ∧ '"' ∉ v ∧ refsOnly knownRefs v = true)) := by
-  simp only [renderHtml] at h
-  cases hf : s.attributeFullname c.env name with
-  | error e => rw [hf] at h; cases h
-  | ok full =>
-    rw [hf] at h
-    simp only at h
-    refine ⟨full, rfl, ?_⟩
-    cases hb : htmlIsBooleanAttr c s name value with
-    | error e => rw [hb] at h; cases h
-    | ok b =>
-      rw [hb] at h
-      cases b with
-      | true =>
-        simp only [Outcome.ok.injEq, Prod.mk.injEq] at h
-        obtain ⟨_, rfl⟩ := h
-        refine ⟨rfl, Or.inl ⟨by simp [fmt, fmtHtmlBooleanAttr], ?_⟩⟩
-        unfold htmlIsBooleanAttr at hb
-        split at hb
-        · split at hb
-          · simp only [Except.ok.injEq, Bool.and_eq_true, beq_iff_eq] at hb
-            exact hb.2
-          · cases hb
-        · cases hb
-      | false =>
-        simp only [Outcome.ok.injEq, Prod.mk.injEq] at h
-        obtain ⟨_, rfl⟩ := h
-        refine ⟨rfl, Or.inr ⟨htmlAttrValue c name value, by simp [fmt, fmtHtmlAttribute], ?_⟩⟩
-        unfold htmlAttrValue
-        split
-        · exact ⟨(serializeAttribute_safe value).1, (serializeAttribute_safe value).2.2⟩
-        · exact serializeAttributeHtml_safe value
+       (∃ v, tok.text = full ++ ['=','"'] ++ v ++ ['"'] ∧ '"' ∉ v ∧ refsOnly knownRefs v = true)) :=
+  c19_attr c s s' node parent name value tok h
 
 /-- A namespace-declaration token is empty, `xmlns="uri"` or `xmlns:prefix="uri"`; the URI is
     escaped like an attribute value. -/
-theorem C19_attr_xmlns (c : HtmlCtx) (s s' : FStack) (node : Tree) (parent : Option Tree) (p ns : Nat)
+theorem C19_attr_xmlns (c : HtmlCtx) (s s' : HState) (node : Tree) (parent : Option Tree) (p ns : Nat)
     (tok : OutputToken) (h : renderHtml c s node parent (.pfx p ns) = .ok (s', tok)) :
     tok.text = [] ∨
     ∃ v, (tok.text = ['x','m','l','n','s','=','"'] ++ v ++ ['"'] ∨
           tok.text = ['x','m','l','n','s',':'] ++ c.env.prefixStr p ++ ['=','"'] ++ v ++ ['"']) ∧
-      '"' ∉ v ∧ refsOnly knownRefs v = true := by
-  simp only [renderHtml] at h
-  split at h
-  · split at h
-    · simp only [Outcome.ok.injEq, Prod.mk.injEq] at h
-      obtain ⟨_, rfl⟩ := h
-      left; rfl
-    · split at h
-      · simp only [Outcome.ok.injEq, Prod.mk.injEq] at h
-        obtain ⟨_, rfl⟩ := h
-        exact Or.inr ⟨serializeAttributeHtml (c.env.namespaceStr ns),
-          Or.inl (by simp [fmt, fmtHtmlXmlnsDefault]), serializeAttributeHtml_safe _⟩
-      · simp only [Outcome.ok.injEq, Prod.mk.injEq] at h
-        obtain ⟨_, rfl⟩ := h
-        exact Or.inr ⟨serializeAttributeHtml (c.env.namespaceStr ns),
-          Or.inr (by simp [fmt, fmtHtmlXmlnsPrefix]), serializeAttributeHtml_safe _⟩
-  · cases h
+      '"' ∉ v ∧ refsOnly knownRefs v = true :=
+  c19_attr_xmlns c s s' node parent p ns tok h
 
 /-! ### Processing instructions -/
 
 /-- A processing instruction whose data contains `>` is refused, in every state. -/
-theorem C19_pi (c : HtmlCtx) (s : FStack) (node : Tree) (parent : Option Tree) (target : Nat) (d : Str)
+theorem C19_pi (c : HtmlCtx) (s : HState) (node : Tree) (parent : Option Tree) (target : Nat) (d : Str)
     (hd : '>' ∈ d) : ∃ e, renderHtml c s node parent (.pi target (some d)) = .err e := by
   have hc : d.contains htmlPiForbidden = true := by
     simpa [htmlPiForbidden] using hd
@@ -383,31 +288,14 @@ theorem C19_pi (c : HtmlCtx) (s : FStack) (node : Tree) (parent : Option Tree) (
   · exact ⟨_, rfl⟩
 
 /-- Otherwise it is written `<?target data>` / `<?target>` (no `?` before the `>`). -/
-theorem C19_pi_form (c : HtmlCtx) (s : FStack) (node : Tree) (parent : Option Tree) (target : Nat)
-    (data : Option Str) (s' : FStack) (tok : OutputToken)
+theorem C19_pi_form (c : HtmlCtx) (s : HState) (node : Tree) (parent : Option Tree) (target : Nat)
+    (data : Option Str) (s' : HState) (tok : OutputToken)
     (h : renderHtml c s node parent (.pi target data) = .ok (s', tok)) :
     (c.env.namespaceStr (c.env.nsOfName target)).isEmpty = true ∧
     match data with
     | some d => '>' ∉ d ∧ tok.text = ['<','?'] ++ c.env.localName target ++ [' '] ++ d ++ ['>']
-    | none => tok.text = ['<','?'] ++ c.env.localName target ++ ['>'] := by
-  simp only [renderHtml] at h
-  split at h
-  · cases h
-  · rename_i hns
-    refine ⟨by simpa using hns, ?_⟩
-    cases data with
-    | none =>
-      simp only [Outcome.ok.injEq, Prod.mk.injEq] at h
-      obtain ⟨_, rfl⟩ := h
-      simp [fmt, fmtHtmlPi]
-    | some d =>
-      simp only at h
-      split at h
-      · cases h
-      · rename_i hgt
-        simp only [Outcome.ok.injEq, Prod.mk.injEq] at h
-        obtain ⟨_, rfl⟩ := h
-        refine ⟨by simpa [htmlPiForbidden] using hgt, by simp [fmt, fmtHtmlPiData]⟩
+    | none => tok.text = ['<','?'] ++ c.env.localName target ++ ['>'] :=
+  c19_pi_form c s node parent target data s' tok h
 
 /-- Stream level: if any processing instruction among the serialised nodes has `>` in its data,
     the whole call returns an error (never a string), with or without indentation. -/
@@ -447,14 +335,139 @@ theorem C19_pi_refused (env : Env) (p : HtmlParams) (t : Tree) (start : Path) (p
     call — so the token-level theorems above speak about every piece of every output. -/
 theorem C19_tokens (env : Env) (p : HtmlParams) (t : Tree) (start : Path) (out : Str)
     (h : serializeHtmlString env p t start = .ok out) :
-    ∃ l, renderHtmlAll (htmlCtx env p) t (initStack t start) (genOutputs t start) = .ok l ∧
+    ∃ l, renderHtmlAll (htmlCtx env p) t (htmlInitState (htmlCtx env p) t start) (genOutputs t start) = .ok l ∧
       (∀ k ∈ l, ∃ s1 s2 node, t.at? k.1 = some node ∧
         renderHtml (htmlCtx env p) s1 node (t.parentAt? k.1) k.2.1 = .ok (s2, k.2.2)) ∧
       ∃ decor : List (Nat × Bool), decor.length = l.length ∧
         (p.indentation = none → ∀ d ∈ decor, d = (0, false)) ∧
         out = htmlDoctype ++ (List.zip decor l).flatMap (fun dk =>
           (if dk.1.1 > 0 then htmlIndentBytes dk.1.1 else []) ++ htmlTokenBytes dk.2.2.2
-            ++ (if dk.1.2 then htmlNewline else [])) := by
+            ++ (if dk.1.2 then htmlNewline else [])) :=
+  c19_tokens env p t start out h
+
+/-- End tags: in every successful serialisation, the end tag of an element in no namespace, in
+    `XHTML_NS`, MathML or SVG is `</local>` — the bare local name, like its start tag
+    (`C19_unprefixed`) — or nothing at all when the element is void (`C19_tags_end`).  This is a
+    property of the whole run: the frames an element's start tag pushes are exactly the frames its
+    end tag pops, so the name stack at the end tag is the one right after the start tag. -/
+theorem C19_unprefixed_end (env : Env) (p : HtmlParams) (t : Tree) (start : Path)
+    (l : List (Path × Output × OutputToken))
+    (hl : renderHtmlAll (htmlCtx env p) t (htmlInitState (htmlCtx env p) t start) (genOutputs t start) = .ok l) :
+    ∀ k ∈ l, ∀ name, k.2.1 = .endTag name →
+      ((htmlCtx env p).h.isHtmlNamespace ((htmlCtx env p).env.nsOfName name) = true ∨
+        (htmlCtx env p).h.mustBeUnprefixed ((htmlCtx env p).env.nsOfName name) = true) →
+      (htmlCtx env p).env.nsOfName name ≠ Env.xmlNamespace →
+      k.2.2.text = [] ∨ k.2.2.text = ['<','/'] ++ (htmlCtx env p).env.localName name ++ ['>'] := by
+  intro k hk name hname hns hxml
+  exact (run_top False (fun h => h.elim) (fun h => h.elim) t start l hl).2 k hk name hname ⟨hns, hxml⟩
+
+/-! ### MathML / SVG / XHTML under a default-namespace declaration -/
+
+/-- Full strength.  In every successful serialisation — any tree, start node, parameter set —
+    every start tag of an element in the MathML, SVG or `XHTML_NS` namespace is written (unprefixed,
+    `C19_unprefixed`) while the default namespace declared by the written start tags around it, its
+    own included, is the element's namespace: `embeddedUnderDefault` replays the tokens, tracking
+    only `xmlns="…"` as written.  Hypotheses on the vocabulary: namespace 1 is the XML namespace
+    (`Xot::new`), and no local name or prefix contains a space (the replay tells `<name xmlns="…"`
+    from `<name` by its text).
+    Proof: the default binding on top of the name stack is, at every event, the default namespace
+    the output has in force (`DefaultInv`) — the injected binding has a frame of its own that
+    replaces older default bindings and ends with its element, and declarations the `Prefix` arm
+    hides never enter the stack. -/
+theorem C19_embedded (env : Env) (p : HtmlParams) (t : Tree) (start : Path)
+    (l : List (Path × Output × OutputToken))
+    (hxml : env.namespaces[Env.xmlNamespace]? = some xmlNs) (hsp : NoSpaces env)
+    (hl : renderHtmlAll (htmlCtx env p) t (htmlInitState (htmlCtx env p) t start) (genOutputs t start) = .ok l) :
+    embeddedUnderDefault (htmlCtx env p) l = true := by
+  have hsp' : NoSpaces (htmlCtx env p).env := by
+    obtain ⟨hn, hp⟩ := htmlCtx_names env p
+    exact ⟨fun n => by simpa [Env.localName, hn] using hsp.1 n, fun q => by simpa [Env.prefixStr, hp] using hsp.2 q⟩
+  have h := (run_top True (fun _ => htmlCtx_xml_not_unprefixed env p hxml) (fun _ => hsp') t start l hl).1 trivial
+  simp [embeddedUnderDefault, h]
+
+/-- The vocabulary of the examples: namespaces `""`, XML, SVG, `XHTML_NS`; names `div` (none),
+    `svg` (SVG), `p` (`XHTML_NS`). -/
+def witnessEnv : Env :=
+  ⟨[[], xmlNs, svgNs, xhtmlNs], [[], ['x','m','l']],
+   [(['s','p','a','c','e'], 1), (['i','d'], 1), (['d','i','v'], 0), (['s','v','g'], 2), (['p'], 3)]⟩
+
+/-- The hypotheses of `C19_embedded` hold of it. -/
+example : witnessEnv.namespaces[Env.xmlNamespace]? = some xmlNs ∧ NoSpaces witnessEnv := by
+  refine ⟨by decide, fun n => ?_, fun q => ?_⟩
+  · rcases n with _ | _ | _ | _ | _ | n <;> simp [Env.localName, witnessEnv]
+  · rcases q with _ | _ | q <;> simp [Env.prefixStr, witnessEnv]
+
+/-- The replay does refuse a bare `<svg>` with no declaration around it (what the serialiser wrote
+    for the second `svg` of `<div><svg/><svg/></div>` before the fix). -/
+example : embeddedUnderDefault (htmlCtx witnessEnv {})
+    [([], .startTagOpen 3, ⟨false, ['<','s','v','g']⟩), ([], .startTagClose, ⟨false, ['>']⟩)] = false := by decide
+
+/-- The three shapes that used to lose the declaration (fixed in /repo f19bbd2).
+    `<div><svg/><svg/></div>`: each `svg` declares its namespace; -/
+example : toHtmlString witnessEnv (.node (.element 2) [.node (.element 3) [], .node (.element 3) []]) [] = .ok
+    ['<','!','D','O','C','T','Y','P','E',' ','h','t','m','l','>','<','d','i','v','>','<','s','v','g',' ','x','m','l','n','s','=','"','h','t','t','p',':','/','/','w','w','w','.','w','3','.','o','r','g','/','2','0','0','0','/','s','v','g','"','>','<','/','s','v','g','>','<','s','v','g',' ','x','m','l','n','s','=','"','h','t','t','p',':','/','/','w','w','w','.','w','3','.','o','r','g','/','2','0','0','0','/','s','v','g','"','>','<','/','s','v','g','>','<','/','d','i','v','>'] := by decide
+
+/-- `svg > p > svg` with `p` in `XHTML_NS`: the inner `svg` declares its namespace again; -/
+example : toHtmlString witnessEnv (.node (.element 3) [.node (.element 4) [.node (.element 3) []]]) [] = .ok
+    ['<','!','D','O','C','T','Y','P','E',' ','h','t','m','l','>','<','s','v','g',' ','x','m','l','n','s','=','"','h','t','t','p',':','/','/','w','w','w','.','w','3','.','o','r','g','/','2','0','0','0','/','s','v','g','"','>','<','p',' ','x','m','l','n','s','=','"','h','t','t','p','s',':','/','/','w','w','w','.','w','3','.','o','r','g','/','1','9','9','9','/','x','h','t','m','l','"','>','<','s','v','g',' ','x','m','l','n','s','=','"','h','t','t','p',':','/','/','w','w','w','.','w','3','.','o','r','g','/','2','0','0','0','/','s','v','g','"','>','<','/','s','v','g','>','<','/','p','>','<','/','s','v','g','>'] := by decide
+
+/-- `<div xmlns="…svg"><svg/></div>` with `div` in no namespace: the hidden declaration is no binding. -/
+example :
+    toHtmlString witnessEnv (.node (.element 2) [.node (.namespace 0 2) [], .node (.element 3) []]) [] = .ok
+      ['<','!','D','O','C','T','Y','P','E',' ','h','t','m','l','>','<','d','i','v','>','<','s','v','g',' ','x','m','l','n','s','=','"','h','t','t','p',':','/','/','w','w','w','.','w','3','.','o','r','g','/','2','0','0','0','/','s','v','g','"','>','<','/','s','v','g','>','<','/','d','i','v','>'] := by decide
+
+/-! ### Round trip: reading the escaped tokens back
+
+`htmlDecode` (Lemmas/Html5Decode) is a strict reader of character references: `none` as soon as
+an `&` does not start a complete `&amp; &lt; &gt; &quot; &apos; &nbsp;` or numeric reference. -/
+
+/-- Text: unless the parent is a raw-text or requested CDATA-section element, decoding the token
+    gives the text node's value back (so nothing is lost, and no `&` is raw). -/
+theorem C19_text_roundtrip (c : HtmlCtx) (parent : Option Tree) (text : Str)
+    (hp : ∀ pn, parentElementName parent = some pn →
+      c.h.noEscape.matches c.env pn = false ∧ c.cdata.contains pn = false) :
+    htmlDecode (htmlTextValue c parent text) = some text := by
+  unfold htmlTextValue
+  cases hpn : parentElementName parent with
+  | none => exact htmlDecode_serializeText text
+  | some pn =>
+    obtain ⟨h1, h2⟩ := hp pn hpn
+    simp only [h1, h2, Bool.false_eq_true, if_false]
+    split
+    · exact htmlDecode_serializeTextHtml text
+    · exact htmlDecode_serializeText text
+
+/-- Attribute values (the `v` of `C19_attr` is `htmlAttrValue`) and namespace URIs in `xmlns`
+    tokens: decoding gives the value back. -/
+theorem C19_attr_roundtrip (c : HtmlCtx) (name : Nat) (value uri : Str) :
+    htmlDecode (htmlAttrValue c name value) = some value ∧
+    htmlDecode (serializeAttributeHtml uri) = some uri := by
+  refine ⟨?_, htmlDecode_serializeAttributeHtml uri⟩
+  unfold htmlAttrValue
+  split
+  · exact htmlDecode_serializeAttribute value
+  · exact htmlDecode_serializeAttributeHtml value
+
+/-- The reader is strict: a raw `&`, an unknown name, an unterminated reference are refused. -/
+example : htmlDecode ['a','&','b'] = none ∧ htmlDecode ['&','x','y',';'] = none ∧
+    htmlDecode ['&','a','m','p'] = none ∧
+    htmlDecode ['&','n','b','s','p',';','&','l','t',';'] = some ['\u00a0','<'] := by
+  refine ⟨?_, ?_, ?_, ?_⟩ <;>
+    simp [htmlDecode, splitSemi, htmlEntity, decodeEntity, namedEntity, namedEntities, List.lookup]
+
+/-! ### Where indentation goes
+
+With indentation, `serialize_pretty` decorates every token with `htmlPrettyTrace`: the
+(indentation, newline) pairs `Pretty::prettify` computes along the event stream. -/
+
+/-- The pretty string is the doctype and the rendered tokens decorated by `htmlPrettyTrace`. -/
+theorem C19_pretty_tokens (env : Env) (p : HtmlParams) (sup : List Nat) (t : Tree) (start : Path) (out : Str)
+    (hi : p.indentation = some sup) (h : serializeHtmlString env p t start = .ok out) :
+    ∃ l, renderHtmlAll (htmlCtx env p) t (htmlInitState (htmlCtx env p) t start) (genOutputs t start) = .ok l ∧
+      l.length = (genOutputs t start).length ∧
+      out = htmlDoctype ++ (List.zip (htmlPrettyTrace (htmlCtx env p) sup t [] (genOutputs t start)) l).flatMap
+        (fun dk => (if dk.1.1 > 0 then htmlIndentBytes dk.1.1 else []) ++ htmlTokenBytes dk.2.2.2
+          ++ (if dk.1.2 then htmlNewline else [])) := by
   unfold serializeHtmlString bufferToString at h
   cases hr : (serializeHtmlWrite env p t start).2 with
   | err e => rw [hr] at h; cases h
@@ -465,108 +478,73 @@ theorem C19_tokens (env : Env) (p : HtmlParams) (t : Tree) (start : Path) (out :
     simp only [Outcome.ok.injEq] at h
     subst h
     unfold serializeHtmlWrite at hr ⊢
-    cases hi : p.indentation with
-    | some sup =>
-      rw [hi] at hr
-      simp only at hr ⊢
-      obtain ⟨l, hl, decor, hlen, hb⟩ := writeHtmlPrettyGo_tokens _ sup t _ _ _ hr
-      exact ⟨l, hl, renderHtmlAll_mem _ t _ _ l hl, decor, hlen, by simp, by rw [hb]⟩
-    | none =>
-      rw [hi] at hr
-      simp only at hr ⊢
-      obtain ⟨l, hl, hb⟩ := writeHtmlGo_tokens _ t _ _ hr
-      refine ⟨l, hl, renderHtmlAll_mem _ t _ _ l hl, List.replicate l.length (0, false), by simp,
-        fun _ d hd => (List.eq_of_mem_replicate hd), ?_⟩
-      rw [hb]
-      congr 1
-      clear hb hl hr
-      induction l with
-      | nil => rfl
-      | cons k l ih =>
-        simp only [List.length_cons, List.replicate_succ, List.zip_cons_cons, List.flatMap_cons]
-        rw [ih]
-        simp
+    rw [hi] at hr ⊢
+    simp only at hr ⊢
+    obtain ⟨l, hl, hlen, hb⟩ := writeHtmlPrettyGo_trace _ sup t _ _ _ hr
+    exact ⟨l, hl, hlen, by rw [hb]⟩
 
-/-- End tags: in every successful serialisation, the end tag of an element in no namespace, in
-    `XHTML_NS`, MathML or SVG is `</local>` — the bare local name, like its start tag
-    (`C19_unprefixed`) — or nothing at all when the element is void (`C19_tags_end`).  This is a
-    property of the whole run: the default binding the element saw at its start tag is still in
-    the name stack at its end tag, whatever its descendants pushed and popped in between. -/
-theorem C19_unprefixed_end (env : Env) (p : HtmlParams) (t : Tree) (start : Path)
-    (l : List (Path × Output × OutputToken))
-    (hl : renderHtmlAll (htmlCtx env p) t (initStack t start) (genOutputs t start) = .ok l) :
-    ∀ k ∈ l, ∀ name, k.2.1 = .endTag name →
-      ((htmlCtx env p).h.isHtmlNamespace ((htmlCtx env p).env.nsOfName name) = true ∨
-        (htmlCtx env p).h.mustBeUnprefixed ((htmlCtx env p).env.nsOfName name) = true) →
-      (htmlCtx env p).env.nsOfName name ≠ Env.xmlNamespace →
-      k.2.2.text = [] ∨ k.2.2.text = ['<','/'] ++ (htmlCtx env p).env.localName name ++ ['>'] := by
-  intro k hk name hname hns hxml
-  obtain ⟨sf, hrun⟩ := renderHtmlAll_run _ t _ _ l hl
-  unfold genOutputs at hrun
-  cases hn : t.at? start with
-  | none =>
-    simp only [hn, runHtml, Option.some.injEq, Prod.mk.injEq] at hrun
-    obtain ⟨_, rfl⟩ := hrun; simp at hk
-  | some n =>
-    cases hs : namespacesInScope t start with
-    | none =>
-      simp only [hn, hs, runHtml, Option.some.injEq, Prod.mk.injEq] at hrun
-      obtain ⟨_, rfl⟩ := hrun; simp at hk
-    | some inScope =>
-      simp only [hn, hs] at hrun
-      have hne : initStack t start ≠ [] := by simp [initStack, FStack.new]
-      exact (run_node _ t inScope n true start _ sf l hne hrun).2 k hk name hname ⟨hns, hxml⟩
+/-- The events of any subtree leave the `Pretty` stack as they found it (what `>` pushes the end
+    tag pops), and inside mixed content — below an element with a text or inline-element child, a
+    formatted element or a suppressed name, at any depth — no event gets indentation or a newline. -/
+theorem C19_pretty_subtree (c : HtmlCtx) (sup : List Nat) (t : Tree) (inScope : List (Nat × Nat)) (n : Tree)
+    (isTop : Bool) (path : Path) (ps : PStack) :
+    htmlPrettyFinal c sup t ps (genNode inScope isTop path n) = ps ∧
+    (ps.inMixed = true → htmlPrettyTrace c sup t ps (genNode inScope isTop path n) =
+      List.replicate (genNode inScope isTop path n).length (0, false)) :=
+  pretty_subtree c sup t inScope n isTop path ps
 
-/-! ### MathML / SVG under a default-namespace declaration: false as stated -/
+/-- A mixed element is written on one line: of all its events, children included, only the start
+    tag can be indented and only the end tag can be followed by a newline (both as the content
+    around the element decides) — so pretty printing never adds a character to its content. -/
+theorem C19_pretty_mixed_element (c : HtmlCtx) (sup : List Nat) (t : Tree) (inScope : List (Nat × Nat))
+    (name : Nat) (ks : List Tree) (isTop : Bool) (path : Path) (ps : PStack)
+    (hat : t.at? path = some (.node (.element name) ks))
+    (hc : (Tree.node (.element name) ks).firstChild?.isSome = true)
+    (hm : htmlHasInlineChild c (.node (.element name) ks) = true ∨ htmlIsSuppressed c sup name = true) :
+    htmlPrettyTrace c sup t ps (genNode inScope isTop path (.node (.element name) ks)) =
+      (ps.getIndentation, false) ::
+        (List.replicate ((declEvents inScope isTop path (.node (.element name) ks)).length + 1
+          + (genNode.genKids inScope path 0 ks).length) (0, false) ++ [(0, ps.getNewline)]) :=
+  mixed_element_trace c sup t inScope name ks isTop path ps hat hc hm
 
-/-- Full strength: in every successful serialisation, every MathML / SVG start tag is written
-    while the default namespace declared by the written start tags around it (its own included)
-    is the element's namespace. -/
-def C19_embedded_Statement : Prop :=
-  ∀ (env : Env) (p : HtmlParams) (t : Tree) (start : Path) (l : List (Path × Output × OutputToken)),
-    renderHtmlAll (htmlCtx env p) t (initStack t start) (genOutputs t start) = .ok l →
-    embeddedUnderDefault (htmlCtx env p) [] l = true
+/-- What makes an element mixed, in terms of the tables: a text child or a child element that is
+    inline (HTML namespace and phrasing content, or HTML namespace and not an HTML element name at
+    all); suppressed = formatted (`pre`, `script`, `style`, `title`, `textarea` in the HTML
+    namespace, any letter case) or matched by the suppress list. -/
+theorem C19_pretty_mixed_iff (c : HtmlCtx) (sup : List Nat) (node : Tree) (name : Nat) :
+    (htmlHasInlineChild c node = node.normalKids.any (fun k => match k.value with
+      | .text _ => true
+      | .element n => c.h.isHtmlElement c.env n &&
+          (phrasingContentNames.contains (asciiLower (c.env.localName n))
+            || !html5Names.contains (asciiLower (c.env.localName n)))
+      | _ => false)) ∧
+    (htmlIsSuppressed c sup name =
+      ((c.h.isHtmlElement c.env name && formattedNames.contains (asciiLower (c.env.localName name)))
+        || htmlMatchesSuppress c.h c.env sup name)) := by
+  refine ⟨?_, by rw [htmlIsSuppressed, formatted_matches_eq]⟩
+  unfold htmlHasInlineChild
+  congr 1
+  funext k
+  cases k.value <;> simp only [isInline_eq]
 
-/-- The vocabulary of the witnesses: namespaces `""`, XML, SVG; names `div` (none), `svg` (SVG). -/
-def witnessEnv : Env :=
-  ⟨[[], xmlNs, svgNs], [[], ['x','m','l']], [(['s','p','a','c','e'], 1), (['i','d'], 1), (['d','i','v'], 0), (['s','v','g'], 2)]⟩
+/-- Outside mixed content the placement is the XML one (C14): indentation or a newline only where
+    the stack is neither mixed nor in `xml:space="preserve"` scope. -/
+theorem C19_pretty_where (ps : PStack) (h : ps.getIndentation > 0 ∨ ps.getNewline = true) :
+    ps.inMixed = false ∧ ps.inSpacePreserve = false := by
+  rcases h with h | h
+  · cases hm : ps.inMixed <;> cases hp : ps.inSpacePreserve <;> simp [PStack.getIndentation, hm, hp] at h ⊢
+  · simpa [PStack.getNewline] using h
 
-/-- `<div><svg/><svg/></div>`, both `svg` in the SVG namespace, no declarations anywhere. -/
-def witnessTwoSvg : Tree := .node (.element 2) [.node (.element 3) [], .node (.element 3) []]
-
-/-- DEFECT (html5_serializer.rs `StartTagOpen` + fullname.rs `add_empty_prefix`): the binding
-    injected for the first `svg` is appended to the frame of `div` (the element pushed no frame of
-    its own) and is still there when the second `svg` starts, which is therefore written `<svg>`
-    with no declaration in scope. -/
-theorem C19_embedded_defect : ¬ C19_embedded_Statement := by
-  intro h
-  have := h witnessEnv {} witnessTwoSvg []
-    (match renderHtmlAll (htmlCtx witnessEnv {}) witnessTwoSvg (initStack witnessTwoSvg [])
-        (genOutputs witnessTwoSvg []) with | .ok l => l | _ => [])
-    (by decide)
-  revert this
-  decide
-
-/-- What the implementation writes for the witness (the harness sees the same string). -/
-example : toHtmlString witnessEnv witnessTwoSvg [] = .ok
-    ['<','!','D','O','C','T','Y','P','E',' ','h','t','m','l','>','<','d','i','v','>','<','s','v','g',' ','x','m','l','n','s','=','"','h','t','t','p',':','/','/','w','w','w','.','w','3','.','o','r','g','/','2','0','0','0','/','s','v','g','"','>','<','/','s','v','g','>','<','s','v','g','>','<','/','s','v','g','>','<','/','d','i','v','>'] := by decide
-
-/-- Second cause: the injected binding does not replace an older one.  `svg > p > svg` with `p` in
-    `XHTML_NS`: the inner `svg` is written bare under the `xmlns` of `p`. -/
+/-- `<div><p>a<b>c</b></p><ul><li>x</li></ul></div>`: `p` and `li` are mixed (one line each), `div`
+    and `ul` are not. -/
 example :
-    let env : Env := ⟨[[], xmlNs, svgNs, xhtmlNs], [[], ['x','m','l']],
-      [(['s','p','a','c','e'], 1), (['i','d'], 1), (['p'], 3), (['s','v','g'], 2)]⟩
-    let t : Tree := .node (.element 3) [.node (.element 2) [.node (.element 3) []]]
-    embeddedUnderDefault (htmlCtx env {}) []
-      (match renderHtmlAll (htmlCtx env {}) t (initStack t []) (genOutputs t []) with | .ok l => l | _ => []) = false := by
-  decide
-
-/-- Third cause: a default declaration the `Prefix` arm hides still counts as a binding.
-    `<div xmlns="…svg"><svg/></div>` with `div` in no namespace is written `<div><svg></svg></div>`. -/
-example :
-    toHtmlString witnessEnv (.node (.element 2) [.node (.namespace 0 2) [], .node (.element 3) []]) [] = .ok
-      ['<','!','D','O','C','T','Y','P','E',' ','h','t','m','l','>','<','d','i','v','>','<','s','v','g','>','<','/','s','v','g','>',
-       '<','/','d','i','v','>'] := by decide
+    (serializeHtmlString
+      ⟨[[], xmlNs], [[], ['x','m','l']],
+       [(['s','p','a','c','e'], 1), (['i','d'], 1), (['d','i','v'], 0), (['p'], 0), (['b'], 0), (['u','l'], 0), (['l','i'], 0)]⟩
+      ⟨some [], []⟩
+      (.node (.element 2) [.node (.element 3) [.node (.text ['a']) [], .node (.element 4) [.node (.text ['c']) []]],
+        .node (.element 5) [.node (.element 6) [.node (.text ['x']) []]]]) [])
+    = .ok ['<','!','D','O','C','T','Y','P','E',' ','h','t','m','l','>','<','d','i','v','>','\n',' ',' ','<','p','>','a','<','b','>','c','<','/','b','>','<','/','p','>','\n',' ',' ','<','u','l','>','\n',' ',' ',' ',' ','<','l','i','>','x','<','/','l','i','>','\n',' ',' ','<','/','u','l','>','\n','<','/','d','i','v','>','\n'] := by decide
 
 /-! ### Non-vacuity -/
 
@@ -578,7 +556,7 @@ example :
         (['c','h','e','c','k','e','d'], 0), (['p'], 0)]⟩
       (.node (.element 2) [.node (.attribute 5 ['C','H','E','C','K','E','D']) [],
         .node (.element 3) [], .node (.element 4) [.node (.text ['a','<','b','&']) []],
-        .node (.element 6) [.node (.text ['a','<','b','&',' ','"']) []]]) []
+        .node (.element 6) [.node (.text ['a','<','b','&','\u00a0','"']) []]]) []
     = .ok ['<','!','D','O','C','T','Y','P','E',' ','h','t','m','l','>','<','d','i','v',' ','c','h','e','c','k','e','d','>','<','B','R','>','<','s','c','r','i','p','t','>','a','<','b','&','<','/','s','c','r','i','p','t','>','<','p','>','a','&','l','t',';','b','&','a','m','p',';','&','n','b','s','p',';','"','<','/','p','>','<','/','d','i','v','>'] := by decide
 
 /-- `C19_pi` / `C19_pi_refused` are not vacuous: `<?pi a>b>` is refused. -/
@@ -592,8 +570,7 @@ example :
       (.node .document [.node (.text ['a','<','&']) []]) [] = .ok ['<','!','D','O','C','T','Y','P','E',' ','h','t','m','l','>','a','&','l','t',';','&','a','m','p',';'] := by decide
 
 /-- `C19_unprefixed` / `C19_ids_ne_xml`: the hypotheses hold in the witness vocabulary. -/
-example : witnessEnv.namespaces[Env.xmlNamespace]? = some xmlNs ∧
-    (htmlCtx witnessEnv {}).h.mustBeUnprefixed ((htmlCtx witnessEnv {}).env.nsOfName 3) = true ∧
+example : (htmlCtx witnessEnv {}).h.mustBeUnprefixed ((htmlCtx witnessEnv {}).env.nsOfName 3) = true ∧
     (htmlCtx witnessEnv {}).h.isHtmlNamespace ((htmlCtx witnessEnv {}).env.nsOfName 2) = true := by decide
 
 end XotModel.Props
